@@ -23,7 +23,7 @@ def retry_run(sc, rs, tier, seed):
 
     def persists(case_ops, want_oracle):
         # strip the executor's annotations: a re-run observes its own times
-        ops = [" ".join(t for t in l.split(" ") if not t.startswith(("at=", "at2=", "st=", "post=", "env=")))
+        ops = [" ".join(t for t in l.split(" ") if not t.startswith(("at=", "at2=", "st=", "post=", "env=", "rd=")))
                for l in case_ops]
         text = "\n".join(ops) + "\n"
         for _ in range(retries):
@@ -79,7 +79,7 @@ def retry_run(sc, rs, tier, seed):
     return r
 
 
-DL_RUN = {"harness": "hdeadline", "driver": "dldrv", "corpus": "deadline", "fields": ["st", "post", "overdue", "rt", "wt", "bl"], "custom": retry_run,
+DL_RUN = {"harness": "hdeadline", "driver": "dldrv", "corpus": "deadline", "fields": ["st", "post", "overdue", "rt", "wt", "bl", "rdl"], "custom": retry_run,
           "quick": {"n": 40, "shards": 12}, "thorough": {"n": 96, "shards": 24}}
 
 STOP_RUN = {"harness": "hstop", "driver": "stopdrv", "corpus": "stopsim", "fields": ["stop", "opens", "closes", "qa", "qb", "online", "ha", "hb", "wa", "wb", "got", "ra", "rb", "ret", "leak", "attempts"] + ["c%d" % i for i in range(64)],
@@ -224,7 +224,9 @@ PROPS = {
                     "c16_pinned_stale_counterexample documents the pinned behaviour; which error value a timer's closure carries "
                     "(fixed when the timer object is created; Reset keeps it) is not in the model: it is tracked by the driver and "
                     "checked by c16-error-kind; never-early in real time and closing within a bounded time rest on the timer "
-                    "contract and the oracles, keep-alive renewal is sampled",
+                    "contract and the oracles; keep-alive renewals are compared at the op (the expiry the timer is armed for is "
+                    "read from the runtime timer object through a version-dependent, self-checked hook: rd= / rdl=, oracle "
+                    "c16-renewal) and, as a second line, sampled in real time",
             "technique": "Lean 4 proof (invariant over a transition system with ghost 'deadline in force') + differential "
                          "correspondence on real timers"},
         "lean": ["NbioVerif.Properties.C16"], "drivers": ["dldrv"], "harness": ["hdeadline"], "cs": cs_stop.C16_CS,
